@@ -1,5 +1,6 @@
 """Contract DSL (sidecar side) and the driver that turns spec + real code into obligations."""
 import ast
+import os
 import time
 import z3
 from .values import *
@@ -242,6 +243,9 @@ def contract_stub(spec_getter):
         outs = []
         # plain functions called from plain functions have no receiver object (then nothing can be in `modifies`)
         decl = ex.spec.classes[st.rec(recv).cls] if recv is not None else {}
+        if spec.modifies is None and recv is not None and spec.self_class and os.environ.get('PYVC_LOG_NOMOD'):
+            with open(os.environ['PYVC_LOG_NOMOD'], 'a') as fh_:
+                fh_.write(f'{ex.spec.name} calls {spec.name} (no modifies clause)\n')
 
         def havoc_state():
             s2 = st.fork()
@@ -326,6 +330,33 @@ def initial_state(ex, spec, fn):
         st.env[p] = v
         st.inputs[p] = v
     return st
+
+
+def _frame_clauses(ex, e0, s1, mods):
+    """[(field, z3 bool)] for the receiver fields outside `mods` whose final value is not identical to the entry value"""
+    a = ex.self_ref.addr
+    r0, r1 = e0.heap.get(a), s1.heap.get(a)
+    out = []
+    if r0 is None or r1 is None:
+        return out
+    for f, v0 in r0.fields.items():
+        if f in mods:
+            continue
+        v1 = r1.fields.get(f)
+        d0 = e0.heap[v0.addr] if isinstance(v0, VRef) and not isinstance(e0.heap.get(v0.addr), Record) else v0
+        d1 = s1.heap[v1.addr] if isinstance(v1, VRef) and not isinstance(s1.heap.get(v1.addr), Record) else v1
+        if d0 is d1:
+            continue
+        try:
+            z = ex.veq(s1, d0, d1)
+        except Unsupported:
+            z = z3.BoolVal(False)
+        if isinstance(z, bool):
+            z = z3.BoolVal(z)
+        if z3.is_true(z) or (z3.is_eq(z) and z.arg(0).eq(z.arg(1))):
+            continue
+        out.append((f, z))
+    return out
 
 
 def generate(spec, mutate=None):
@@ -429,6 +460,14 @@ def _generate(spec, mutate=None, case=None):
                 ob = Obligation(f'{spec.name}{tag}#always({label})/path{i}', s.pc, f(c), 'post', fn.lineno)
                 ob.state, ob.outcome = s, oc
                 res.obligations.append(ob)
+            # frame: a declared `modifies` is what call sites (contract_stub) havoc, so every other field of the
+            # receiver must provably keep its entry value on every exit path
+            if spec.modifies is not None and ex.self_ref is not None:
+                for f, z in _frame_clauses(ex, ex.entry_state, s, set(spec.modifies)):
+                    ob = Obligation(f'{spec.name}{tag}#frame({f})/path{i}', s.pc, z, 'post', fn.lineno,
+                                    note=f'field {f} is written but not listed in modifies')
+                    ob.state, ob.outcome = s, oc
+                    res.obligations.append(ob)
         for ob in ex.obligations:
             ob.name = ob.name.replace('#', tag + '#', 1) if tag else ob.name
             ob.engine = ex
